@@ -781,7 +781,7 @@ class World:
     def snapshot(self, fn, xs):
         x = xs[0]
         if R.is_q(x) and (fn in COPY_OPS or fn == "to_dtype"):
-            return {"codes": R.codes_bytes(x), "scale": x._scale.clone(), "cls": opclass(x), "type": type(x)}
+            return {"codes": R.codes_bytes(x), "scale": x._scale.clone(), "cls": opclass(x), "type": type(x), "src": x}
         return None
 
     def judge_transition(self, fn, op, snap, G, i):
@@ -794,6 +794,17 @@ class World:
             return  # an inconsistent result is the invariant's to report
         if codes != snap["codes"]:
             self.violate("C06", "transition", fn, {"issue": "codes_changed", "cls": snap["cls"]}, f"{fn} altered the codes / zero-point of a {snap['cls']}", i)
+        # a copy is a copy: what torch defines as returning new memory (clone, deepcopy, a move to another dtype)
+        # must not share its payload with the source, or a later in-place write to one alters the codes of the other
+        if fn in ("clone", "deepcopy") or (fn == "to_dtype" and DT[op["dtype"]] != snap["src"].dtype):
+            try:
+                a = {t.untyped_storage().data_ptr() for n, t in R.inner_items(snap["src"])[0] if not n.endswith("_scale")}
+                b = {t.untyped_storage().data_ptr() for n, t in R.inner_items(g)[0] if not n.endswith("_scale")}
+                shared = bool(a & b) and g is not snap["src"]
+            except Exception:
+                shared = False
+            if shared:
+                self.violate("C06", "transition", fn, {"issue": "payload_shared_with_source", "cls": snap["cls"]}, f"{fn} returned a tensor whose codes live in the source's memory: writing to one alters the other", i)
         if fn == "to_dtype" and R.tbytes(g._scale) != R.tbytes(snap["scale"].to(DT[op["dtype"]])):
             self.violate("C06", "transition", fn, {"issue": "scale_not_cast", "cls": snap["cls"]}, f"scale after to({op['dtype']}) is not the old scale cast to it", i)
 
